@@ -8,6 +8,7 @@ import (
 	"math"
 	"net"
 	"sort"
+	"strconv"
 	"strings"
 	"testing"
 	"time"
@@ -319,7 +320,7 @@ func genVal(prop string) func(rt *rapid.T) interface{} {
 				for j := 0; j < n; j++ {
 					switch rapid.IntRange(0, 5).Draw(rt, "idk") {
 					case 0:
-						op.Chars = append(op.Chars, -1-rapid.IntRange(0, 2).Draw(rt, "miss"))
+						op.Chars = append(op.Chars, -1-rapid.IntRange(0, 4).Draw(rt, "miss"))
 					case 1:
 						op.Chars = append(op.Chars, rapid.IntRange(0, len(sc.Sel)-1).Draw(rt, "anyid"))
 					default:
@@ -716,12 +717,27 @@ func (vw *valWorld) idOf(pos int) string {
 			return "99.1"
 		case -2:
 			return fmt.Sprintf("%d.9999", vw.chars[0].aid)
+		case -4:
+			// ids that differ from an existing one only above bit 31
+			vc := vw.chars[len(vw.chars)/2]
+			return fmt.Sprintf("%d.%d", vc.aid+1<<32, vc.c.ID)
+		case -5:
+			vc := vw.chars[len(vw.chars)/2]
+			return fmt.Sprintf("%d.%d", vc.aid, uint64(vc.c.ID)+3<<32)
 		default:
 			return "0.0"
 		}
 	}
 	vc := vw.chars[pos]
 	return fmt.Sprintf("%d.%d", vc.aid, vc.c.ID)
+}
+
+// idNum prints an id from a decoded JSON document (a float64 below 2^53) without an exponent.
+func idNum(v interface{}) string {
+	if f, ok := v.(float64); ok {
+		return strconv.FormatFloat(f, 'f', -1, 64)
+	}
+	return fmt.Sprint(v)
 }
 
 // valueOf is the value an operation writes to the characteristic.
@@ -942,7 +958,7 @@ func (vw *valWorld) ctlOp(name string, cl *ref.Client, c *core.Conn, op ValOp) {
 			}
 			p := op.Chars[i]
 			if vw.on("C09") {
-				if got := fmt.Sprintf("%v.%v", ent["aid"], ent["iid"]); got != vw.idOf(p) {
+				if got := idNum(ent["aid"]) + "." + idNum(ent["iid"]); got != vw.idOf(p) {
 					vw.violate("get-order", "GET %v: entry %d is %s, want %s (each id answered once, in order)", ids, i, got, vw.idOf(p))
 					return
 				}
